@@ -8,7 +8,7 @@
    Bag(True)).  Dusq.remove is modelled AFTER the repair of D26.  NO proofs. *)
 From Hio Require Import Base.Prelude Model.Lmdb Model.IoSub.
 
-Definition val := bytes.
+Notation val := bytes (only parsing).
 
 Section Durq.
   Variable pyeq : val -> val -> bool.
@@ -148,7 +148,56 @@ Section Durq.
 
   Definition store0 : store := fun _ => [].
   Definition queues0 : queues := fun _ => fresh [].
+
+  (* ---- SPEC: a FIFO queue (set = false) / an insertion-ordered set with FIFO pull
+     (set = true) as a plain list; [Reopen pre] = store reopened and a new object
+     resynced: the content is restored (an empty content takes the preload). ---- *)
+  Definition ref_step (set : bool) (l : list val) (o : qop) : list val * res rv :=
+    match o with
+    | PushNone => (l, Ok (RBool false))
+    | Push v => if set && existsb (bytes_eqb v) l then (l, Ok (RBool true))
+                else (l ++ [v], Ok (RBool true))
+    | Extend vs => let new := if set then minus (dedupe vs) l else vs in
+                   (l ++ new, Ok (RBool (nonempty new)))
+    | Pull emptive =>
+      match l with
+      | [] => (l, if emptive then Ok (ROpt None) else Exc IndexErr)
+      | v :: l' => (l', Ok (ROpt (Some v)))
+      end
+    | Clear => ([], Ok (RBool (nonempty l)))
+    | Count v => if set then (l, Exc AttrErr)
+                 else (l, Ok (RNat (N.of_nat (length (filter (pyeq v) l)))))
+    | Remove v => if set then (remove1 v l, Ok (RBool (existsb (bytes_eqb v) l)))
+                  else (l, Exc AttrErr)
+    | Sync _ => (l, Ok (RBool true))          (* content unchanged; the result is not specified *)
+    | Reopen pre =>
+      match l with
+      | [] => (if set then dedupe pre else pre, Ok (RBool true))
+      | _ => (l, Ok (RBool true))
+      end
+    end.
+  Definition res_specified (o : qop) : bool := match o with Sync _ => false | _ => true end.
+
+  Fixpoint ref_run (set : bool) (ls : N -> list val) (ops : list (N * qop)) : list (res rv * list val) :=
+    match ops with
+    | [] => []
+    | (q, o) :: ops' =>
+      let (l', r) := ref_step set (ls q) o in
+      (r, l') :: ref_run set (fun q' => if N.eqb q' q then l' else ls q') ops'
+    end.
 End Durq.
+
+(* The model's history [sns] agrees with the reference history [refs]: after every op the
+   memory content is the reference content, THE DURABLE COPY EQUALS IT (same values, same
+   order), and the result is the reference result. *)
+Fixpoint run_ok (ops : list (N * qop)) (sns : list snap) (refs : list (res rv * list bytes)) : Prop :=
+  match ops, sns, refs with
+  | [], [], [] => True
+  | (q, o) :: ops', sn :: sns', (r, l) :: refs' =>
+    sn_mem sn = l /\ sn_store sn = l /\ (res_specified o = true -> sn_res sn = r) /\
+    run_ok ops' sns' refs'
+  | _, _, _ => False
+  end.
 
 (* ============== correspondence ============== *)
 (* Python equality is supplied by the harness as a table value -> class id
